@@ -94,6 +94,38 @@ def shrink_form_case(case):
             yield dict(case, spec=dict(spec, arcs=arcs))
 
 
+EXHAUSTIVE_FORMS_SCOPE = ("every VRPTW on a depot and two customers a, b with windows a in {[0,inf), [1,2], [2,2]}, b in {[0,inf), [1,3]}, every subset of the "
+                          "six arcs D->a, D->b, a->D, b->D, a->b (time 1 or 2), b->a (unit times and costs otherwise; 2 x 64 x 6 graphs), as arc-based "
+                          "on the grid [0,1,2,3], path-based with every depot route offered, sequence-based with (V,L) in {(1,3),(2,4)} strict and non-strict")
+
+
+def gen_exhaustive_forms(forms=("arc", "path", "seq"), extra=None):
+    """complete enumeration of a small scope of formulation instances (thorough tier)"""
+    import itertools
+    arcs_all = [["D", "a"], ["D", "b"], ["a", "D"], ["b", "D"], ["a", "b"], ["b", "a"]]
+    routes_all = [[0, 1, 0], [0, 2, 0], [0, 1, 2, 0], [0, 2, 1, 0]]
+    for wa, wb, tab in itertools.product([("0", "inf"), ("1", "2"), ("2", "2")], [("0", "inf"), ("1", "3")], ["1", "2"]):
+        for mask in range(64):
+            arcs = [[o, d, (tab if (o, d) == ("a", "b") else "1"), "1"] for k, (o, d) in enumerate(arcs_all) if mask >> k & 1]
+            if tab == "2" and not (mask >> 4 & 1):
+                continue       # the a->b time only matters when the arc exists
+            spec = dict(nodes=[dict(name="D", demand="0", lo="0", hi="inf"), dict(name="a", demand="1", lo=wa[0], hi=wa[1]),
+                               dict(name="b", demand="1", lo=wb[0], hi=wb[1])], arcs=arcs, cap="4", init="3")
+            for form in forms:
+                if form == "arc":
+                    variants = [dict(grid=["0", "1", "2", "3"])]
+                elif form == "path":
+                    variants = [dict(routes=[list(r) for r in routes_all])]
+                else:
+                    variants = [dict(strict=st, V=V, L=L) for st in (False, True) for (V, L) in ((1, 3), (2, 4))]
+                for var in variants:
+                    case = dict(form=form, spec={k: (list(map(dict, v)) if k == "nodes" else [list(a) for a in v] if k == "arcs" else v)
+                                                 for k, v in spec.items()}, seed=1, **var)
+                    if extra:
+                        case.update(extra)
+                    yield case
+
+
 def build_form(case, with_heur=True):
     """returns (object, heuristic outcome) where outcome is None / 'ok' / error kind"""
     from vrpqubo.routing_problem import ArcBasedRoutingProblem, PathBasedRoutingProblem, SequenceBasedRoutingProblem
